@@ -688,8 +688,11 @@ pub fn scenario(name: &str, params: &Value) -> Scenario {
                     sys.w.wire.borrow_mut().write_err_after = Some(k);
                     sys.events.push(format!("WriteErrorAfter({} writes)", k));
                     if kind == std::io::ErrorKind::Other {
-                        // (instead of an error: Ok(0) for every write from the start)
-                        sys.w.wire.borrow_mut().write_zero = k == 0;
+                        // (instead of an error: Ok(0) for every non-empty write from the k-th write on -
+                        // how some transports report a closed pipe; the call fails, it never spins)
+                        let mut w = sys.w.wire.borrow_mut();
+                        w.write_err_after = None;
+                        w.write_zero_after = Some(k);
                     }
                     // the model cannot follow a failing transport; only panics / stalls are judged
                     lenient(&mut sys);
